@@ -464,7 +464,7 @@ def confirm_liveness(fam, binary, results):
     keep = []
     tried = {}
     for kind, where, detail, replay in fam.verd.violations:
-        if kind not in ("C01_Progress", "C18_NoStall"):
+        if kind not in ("C01_Progress", "C18_NoStall", "C02_ExchangeCompletes"):
             keep.append((kind, where, detail, replay))
             continue
         if tried.get(kind, 0) >= 3:
